@@ -599,3 +599,30 @@ func init() {
 	reg("C16.render", checkC16Render)
 	reg("C16.file", checkC16File)
 }
+
+// TestC16Large: very large sources through every compiled route.
+func TestC16Large(t *testing.T) {
+	r := NewRec(t, "C16", "exhaustive: sources of 1 MiB, 4 MiB - 1, 4 MiB + 1, 5 MiB, 9 MiB (thorough: 17 MiB, 33 MiB) through serialise / deserialise, SaveCompiled / Load / LoadAll and LoadFromCompiledData; oracle as in TestC16Files and TestC16RoundTrip; all cases non-trivial")
+	defer r.Flush()
+	r.SetExhaustive()
+	unit := "0123456789abcdef0123456789abcdef0123456789abcdef0123456789abcde\n" // 64 bytes
+	sizes := []int{1 << 20, 4<<20 - 1, 4<<20 + 1, 5 << 20, 9 << 20}
+	if scale(0, 1) == 1 {
+		sizes = append(sizes, 17<<20, 33<<20)
+	}
+	for _, n := range sizes {
+		src := strings.Repeat(unit, n/64) + strings.Repeat("z", n%64)
+		_ = src
+		tagUnit := "{{ x }}{% if x %}y{% endif %}" + strings.Repeat(unit, 16) // ~1 KiB
+		fc := C16FileCase{Name: "big", Source: BStr(tagUnit), Repeat: n/len(tagUnit) + 1}
+		r.Case(fmt.Sprint("file", n), true, fmt.Sprintf("%d bytes through the compiled loader", n))
+		if err := checkC16File(fc); err != nil {
+			r.FailEnum(t, "C16.file", fc, fmt.Errorf("source of %d bytes: %v", n, err))
+		}
+		rc := C16RoundTrip{Name: "big", Source: BStr(unit), SourceRepeat: n / 64, LastModified: 1700000000, CompileTime: 1700000001, AST: "ast"}
+		r.Case(fmt.Sprint("rt", n), true, fmt.Sprintf("%d bytes through serialise / deserialise", n))
+		if err := checkC16RoundTrip(rc); err != nil {
+			r.FailEnum(t, "C16.roundtrip", rc, err)
+		}
+	}
+}
